@@ -12,7 +12,8 @@ Open Scope Q_scope.
 
 (* what one os.waitpid(pid, flags) call does *)
 Inductive wp :=
-| WEintr                    (* InterruptedError *)
+| WEintr (t : Q)            (* InterruptedError, raised at instant t (later than the call only when a
+                               blocking call was interrupted) *)
 | WEchild                   (* ChildProcessError *)
 | WRunning                  (* (0, 0): WNOHANG and still running *)
 | WStatus (t : Q) (st : Z)  (* (pid, st), the call returns at instant t *)
@@ -80,7 +81,9 @@ Section WaitPid.
       | PWait =>
         let s1 := bump s in
         match waitpid (calls s) (now s) nohang with
-        | WEintr => if expired s1 then (timeout_exc, s1) else loop f PWait (do_sleep s1)
+        | WEintr t =>
+          let s2 := at_time s1 t in
+          if expired s2 then (timeout_exc, s2) else loop f PWait (do_sleep s2)
         | WEchild => loop f PExists s1
         | WRunning => if expired s1 then (timeout_exc, s1) else loop f PWait (do_sleep s1)
         | WStatus t st => (decode_status st, at_time s1 t)
